@@ -39,7 +39,11 @@ impl StateMachine<'_> {
         self.painter.paint_buffered_minus_and_plus_lines();
         // A header that is still owed to the previous file section (e.g. a mode change without
         // any other header line) must come first, and must keep its own mode information.
-        self.handle_pending_line_with_diff_name()?;
+        // (Only while in a file header can one be owed; in other states - e.g. an "Only in" line
+        // that opens the input - there is no style to consult for it.)
+        if matches!(self.state, State::DiffHeader(_)) {
+            self.handle_pending_line_with_diff_name()?;
+        }
         self.state = to_state;
         if self.should_handle() {
             self.painter.emit()?;
